@@ -57,7 +57,7 @@ def save(obj: Any, save_directory: Path):
 def get_data_loader(path: Union[str, Path, SerializedPathLoader]):
     if path is None:
 
-        def data_loader():
+        def data_loader(path):
             raise RuntimeError("No serialization path was given")
 
         return data_loader
@@ -111,7 +111,7 @@ def load(
 
     with data_loader("definition.json").open("rt") as fh:
         content = json.load(fh)
-    return from_state_dict(content, as_instance=as_instance)
+    return from_state_dict(content, data_loader, as_instance=as_instance)
 
 
 def from_task_dir(
